@@ -16,7 +16,7 @@ RULE = ("arrival sequences for one key X: a base arrival followed by 1..2 (quick
 ASSUMPTIONS = [
     "attribute value order inside a merged key is not demanded (compared as sets); force-merged columns are compared as comma-split sets that must be repeat-free",
     "position of a replaced/merged feature in iteration order is not demanded",
-    "only level-1 relations are compared here (level-2 composition is C02/C10)",
+    "relations are compared for every stored duplicate-key feature at level 1 and level 2 (GFF3: grandparents gp1/gp2 of the named parents; GTF: gene_id)",
     "when the generated '<key>_n' equals an id that is already stored, the next free n is expected (all features are kept)",
 ]
 
@@ -26,6 +26,14 @@ ATTRVARS_Q = ({"tag": ["a"]}, {"tag": ["b"], "note": ["n"]})
 ATTRVARS_T = ATTRVARS_Q + ({"tag": ["a"], "note": ["n"]},)
 STRATS = [("error", ()), ("warning", ()), ("replace", ()), ("create_unique", ()),
           ("merge", ()), ("merge", ("source",)), ("merge", ("strand",)), ("merge", ("source", "strand"))]
+
+
+GRAND = {"p1": "gp1", "p2": "gp2"}
+# GFF3 files start with the two-level ancestry of the parents the arrivals name
+STATIC_GFF = ["c1\ts1\tgene\t1\t90\t.\t+\t.\tID=gp1", "c1\ts1\tgene\t1\t90\t.\t+\t.\tID=gp2",
+              "c1\ts1\tmRNA\t1\t90\t.\t+\t.\tID=p1;Parent=gp1", "c1\ts1\tmRNA\t1\t90\t.\t+\t.\tID=p2;Parent=gp2"]
+STATIC_IDS = ("gp1", "gp2", "p1", "p2")
+STATIC_REL = {("gp1", "p1", 1), ("gp2", "p2", 1)}
 
 
 def arrival_kinds(tier):
@@ -55,6 +63,8 @@ def make_arrival(kind, tier, gtf):
     if kind == "explicit":
         cols = dict(BASE)
         attrs = {idkey: ["X_1"], "tag": ["a"], pkey: ["p1"]}
+        if gtf:
+            attrs["gene_id"] = [GRAND["p1"]]
         return dict(key="X_1", cols=cols, attrs=attrs, parents=["p1"])
     ci, ai, p = kind
     cols = dict(BASE)
@@ -62,6 +72,8 @@ def make_arrival(kind, tier, gtf):
     attrs = {idkey: ["X"]}
     attrs.update({k: list(v) for k, v in av[ai].items()})
     attrs[pkey] = [p]
+    if gtf:
+        attrs["gene_id"] = [GRAND[p]]
     return dict(key="X", cols=cols, attrs=attrs, parents=[p])
 
 
@@ -81,8 +93,8 @@ def observe(db):
         fid = row[0]
         cols = dict(zip(COLNAMES, [str(x) for x in row[1:9]]))
         feats[fid] = (cols, {k: list(v) for k, v in row[9]})
-    rel1 = {(p, ch) for (p, ch, lv) in c["relations"] if lv == 1}
-    return feats, rel1
+    rels = {(p, ch, lv) for (p, ch, lv) in c["relations"] if ch in feats}
+    return feats, rels
 
 
 def body(ch, ctx):
@@ -121,13 +133,13 @@ def body(ch, ctx):
     db = None
     try:
         if imp == "gff_update":
-            p1 = dbutil.write_text(wd, "a.gff", "\n".join(texts[:split]) + "\n")
+            p1 = dbutil.write_text(wd, "a.gff", "\n".join(STATIC_GFF + texts[:split]) + "\n")
             p2 = dbutil.write_text(wd, "b.gff", "\n".join(texts[split:]) + "\n")
             db = gffutils.create_db(p1, os.path.join(wd, "o.db"), **kw)
             ukw = dict(kw)
             db.update(p2, make_backup=False, **ukw)
         else:
-            p = dbutil.write_text(wd, "a.g", "\n".join(texts) + "\n")
+            p = dbutil.write_text(wd, "a.g", "\n".join(([] if gtf else STATIC_GFF) + texts) + "\n")
             db = gffutils.create_db(p, ":memory:", **kw)
     except sqlite3.IntegrityError as e:
         ctx.fail("uncaught-integrity-error", dict(sig, generated_key_equals_explicit_id=ref.explicit_collision), lines=texts,
@@ -141,8 +153,11 @@ def body(ch, ctx):
     if not ctx.check(raised is None, "unexpected-exception", dict(sig, exc=type(raised).__name__), lines=texts, message=str(raised)[:300]):
         return
     exp = ref.expected()
-    feats, rel1 = observe(db)
+    feats, rels = observe(db)
     dbutil.close_db(db)
+    if not gtf:
+        for sid in STATIC_IDS:
+            feats.pop(sid, None)
     missing = sorted(set(exp) - set(feats))
     extra = sorted(set(feats) - set(exp))
     ctx.check(not missing, "feature-lost", sig, lines=texts, missing=missing, stored=sorted(feats))
@@ -165,9 +180,15 @@ def body(ch, ctx):
                 ctx.fail("attribute-values-differ", dict(sig, key=k if k in ("Parent", "transcript_id") else "other",
                                                          lost=bool(set(eattrs.get(k, ())) - set(gv))),
                          lines=texts, id=fid, key=k, got=sorted(gv), expected=sorted(eattrs.get(k, ())))
-    exp_rel = {(p, fid) for fid, (_, _, ps) in exp.items() for p in ps}
-    lost = sorted(exp_rel - rel1)
-    invented = sorted(rel1 - exp_rel)
-    ctx.check(not lost, "parent-link-lost", dict(sig, into_suffix=ref.third_into_suffix), lines=texts, lost=lost, stored=sorted(rel1))
-    ctx.check(not invented, "parent-link-invented", dict(sig, into_suffix=ref.third_into_suffix), lines=texts, invented=invented,
-              expected=sorted(exp_rel))
+    exp_rel = set() if gtf else set(STATIC_REL)
+    for fid, (_, _, ps) in exp.items():
+        for p in ps:
+            exp_rel.add((p, fid, 1))
+            exp_rel.add((GRAND[p], fid, 2))
+    lost = sorted(exp_rel - rels)
+    invented = sorted(rels - exp_rel)
+    ctx.check(not lost, "parent-link-lost", dict(sig, into_suffix=ref.third_into_suffix, levels=",".join(sorted({str(x[2]) for x in lost}))),
+              lines=texts, lost=lost, stored=sorted(rels))
+    ctx.check(not invented, "parent-link-invented",
+              dict(sig, into_suffix=ref.third_into_suffix, levels=",".join(sorted({str(x[2]) for x in invented}))),
+              lines=texts, invented=invented, expected=sorted(exp_rel))
